@@ -7,6 +7,7 @@ from .. import build, cppdrv, gen, monitors, rtmodel
 from . import common as K
 
 ID = "C11"
+REACH_TARGETS = [('runtime.ManagedFilter.tick', 'formak.runtime:ManagedFilter.tick'), ('runtime.ManagedFilter._process_model', 'formak.runtime:ManagedFilter._process_model')]
 LEVEL = "exploration"
 RULE = ("tick histories (1-12 ticks, 0-5 readings per tick with timestamps before/equal/after the held and the "
         "output time, duplicates, any order; with and without readings argument; with/without control and "
